@@ -83,6 +83,9 @@ def sanitize(case):
         if op[0] == "same":
             continue
         ok_root[n] = out == [0] and op[0] in ("construct", "helper", "deepcopy")
+        # a copy / helper result derived from a root whose own operation failed is no instance either
+        if op[0] in ("helper", "deepcopy") and isinstance(op[1], int) and op[1] >= case["nd"] and not ok_root.get(op[1], False):
+            ok_root[n] = False
         n += 1
     ops = [(op, fa) for op, fa in case["ops"]
            if op[0] != "same" or (ok_root.get(op[1]) and ok_root.get(op[2]))]
